@@ -3,6 +3,10 @@
 run the named quick checks against it, and file it under /verif/seeded/<name>/ (patch.diff, demo.py, meta.json)."""
 import sys, os, json, subprocess, shutil
 name, d, props = sys.argv[1], os.path.abspath(sys.argv[2]), sys.argv[3:]
+# make sure the tree is exactly HEAD + patch.diff (sub-agents sharing a repository can leave stray edits behind)
+if os.path.exists(os.path.join(d, ".git")):
+    subprocess.run(["git", "checkout", "--", "cvss"], cwd=d, check=True)
+    subprocess.run(["git", "apply", "patch.diff"], cwd=d, check=True)
 r = subprocess.run([sys.executable, os.path.join(os.path.dirname(os.path.abspath(__file__)), "seedcheck.py"), d] + props, stdout=subprocess.PIPE)
 res = json.loads(r.stdout.decode())
 meta = json.load(open(os.path.join(d, "meta.json")))
